@@ -128,10 +128,13 @@ def run(ctx):
                         'any exception counts as refusal']
     warnings.simplefilter('ignore')
     r = ctx.model('MC_Tamper', 'MC_Tamper_all', coverage=True)
-    for act in ('Attack', 'WrongKey', 'Decrypt'):
+    for act in ('Attack', 'Downgrade', 'WrongKey', 'Decrypt'):
         if r.coverage.get(act, (0, 0))[0] == 0:
             raise MachineryError('Tamper action %s never taken' % act)
     ctx.model('MC_Tamper', 'MC_Tamper_nomdc', must_hold=False)
+    # a reader that decrypts containers without integrity protection like any other (AcceptSED = TRUE - PGPy as it is, open finding 55)
+    # does NOT satisfy Integrity: TLC must find the downgrade + modification
+    ctx.model('MC_Tamper', 'MC_Tamper_sed', must_hold=False)
     ctx.model('MC_Encrypt')
     ev = []
     W = c03.World(ctx)
@@ -241,6 +244,42 @@ def run(ctx):
     for action, region, blob in attacks(ctx, fA, fB, not ctx.quick):
         o, p = attempt(pgpy, blob, lambda mm: mm.decrypt('pw'))
         ev.append({'k': 'tamper', 'action': action, 'region': region, 'recipient': 'pw-foreign', 'cipher': 7, 'outcome': o, 'plain': p, 'originals': origF, 'wrongkey': False, 'size': 9})
+    # ---- downgrade: the integrity-protected container re-packed as a Symmetrically Encrypted Data packet (tag 9, no integrity
+    #      protection) and decrypt() used as an oracle. The attacker (no key) keeps the first block + 2 octets (the quick check still passes),
+    #      inserts one block X of his choice and replays original ciphertext from a block boundary on: the plaintext is two garbage blocks,
+    #      then original plaintext. He tries values of X until the garbage happens to be a Marker packet (which the message reader skips)
+    #      whose length lands on a packet boundary inside the victim's plaintext - here a binary body that ends with octets the attacker
+    #      supplied (a quoted attachment): marker packets as landing pads and a literal packet with his text.
+    BS = 16
+    evil_text = b'PAY MALLORY 1000000'
+    evil = build.pkt(11, b'b\x00' + bytes(4) + evil_text)
+    pads = b''.join(build.pkt(10, b'PGP' + bytes(11)) for _ in range(12))
+    honest = b'Quarterly figures attached. Do not pay anything to Mallory.\n'
+    for fill in range(16):
+        body_ = honest + b' ' * fill + pads + evil
+        lit_hdr = len(build.pkt(11, b'b\x00' + bytes(4) + body_)) - len(body_)
+        if (BS + 2 + lit_hdr + len(honest) + fill) % BS == 0:
+            break
+    fD, _ = enc.encrypt_message(build.pkt(11, b'b\x00' + bytes(4) + body_), 7, passphrases=[b'pw'], s2k=(0, 8, 0))
+    pk_ = build.read_packets(fD)
+    esk_ = b''.join(r for t_, b, r in pk_ if t_ == 3)
+    ct_ = next(b for t_, b, r in pk_ if t_ == 18)[1:]
+    pad_block = (BS + 2 + lit_hdr + len(honest) + fill) // BS
+    replay_ = ct_[(pad_block - 1) * BS:]
+    origD = [sha(body_)]
+    first = None
+    tries = 0
+    for x in range(65536 if not ctx.quick else 24000):
+        tries += 1
+        forged = esk_ + build.pkt(9, ct_[:BS + 2] + bytes([x & 0xff, x >> 8]) + bytes(BS - 2) + replay_)
+        o, p = attempt(pgpy, forged, lambda mm: mm.decrypt('pw'))
+        if o == 'returned' and p not in origD:
+            first = (x, p)
+            break
+    ctx.extra['downgrade_oracle_tries'] = tries
+    ev.append({'k': 'tamper', 'action': 'downgrade to a tag-9 packet, decrypt() as an oracle over two octets', 'region': 'container', 'recipient': 'pw-foreign', 'cipher': 7,
+               'outcome': 'returned' if first else 'raised', 'plain': first[1] if first else '', 'originals': origD, 'wrongkey': False, 'size': len(body_),
+               'note': ('try %d returned %s' % (first[0], 'the text the attacker planted' if first[1] == sha(evil_text) else 'another plaintext')) if first else 'no value accepted in %d tries' % tries})
     for e in ev:
         ctx.case((e['action'], e['region'], e['recipient'], e['cipher'], e['size']))
     for j in (0, len(ev) // 3, len(ev) // 2, len(ev) - 1):
